@@ -256,3 +256,71 @@ def replay_multitask(args, model):
         return dict(confirmed=True, detail=f'path from W_init differs from the cold solve by {d:.3g} (stop_crit {stops[0]:.3g}); '
                     f'W_init written: {not np.array_equal(W0, W0c)}', inputs=dict(seed=0, fit_intercept=fi))
     return dict(confirmed=False, detail='native scenario passes', inputs={})
+
+
+def sqrt_lasso_path_task(T):
+    """SqrtLasso.path (experimental) with the ProxNewton solver replaced by a contract-carrying stub (records its arguments, overwrites
+    w_init IN PLACE with a fresh solution and returns it, as the real solver does): every solve gets a consistent (w_init, Xw_init) and the
+    grid value of alpha (grid sorted decreasingly, whatever order was passed); row i of the returned coefficients is -- after ALL solves --
+    the solution for alphas[i] (no later solve may overwrite it); serves C05 and C11 (fit() is path() with the single alpha)"""
+    z3, sym, symrun = _common()
+    from pv.sproof import check_contract, zpre
+    import skglm.experimental.sqrt_lasso as M
+    R, L = sym.SymReal, sym.lift
+    X = [[z3.Real(f'X{i}_{j}') for j in range(P)] for i in range(N)]
+    calls = []
+
+    class Solver:
+        def __init__(self, **kw):
+            self.kw = kw
+
+        def solve(self, X_, y_, datafit, penalty, w_init=None, Xw_init=None):
+            k = len(calls)
+            calls.append(dict(w=[L(v) for v in w_init], Xw=[L(v) for v in Xw_init], alpha=penalty.alpha))
+            for j in range(P):
+                w_init[j] = R(z3.Real(f'sol{k}_{j}'))
+            return w_init, np.zeros(2), R(z3.Real(f'stop{k}'))
+
+    class Obj:
+        alpha = None
+
+    def run():
+        del calls[:]
+        Xs = np.array([[R(t) for t in row] for row in X], dtype=object)
+        ys = np.array([R(z3.Real(f'y{i}')) for i in range(N)], dtype=object)
+        saved = (M.ProxNewton, M.compiled_clone)
+
+        class NP:
+            def __getattr__(self, name):
+                return getattr(saved_np, name)
+
+            @staticmethod
+            def zeros(shape, *a, **k):
+                return np.zeros(shape, dtype=object)
+        saved_np = M.np
+        try:
+            M.ProxNewton, M.compiled_clone, M.np = Solver, (lambda o, *a, **k: Obj()), NP()
+            est = M.SqrtLasso(alpha=0.3)
+            out = est.path(Xs, ys, alphas=[0.1, 0.5, 0.2])
+        finally:
+            M.ProxNewton, M.compiled_clone = saved
+            M.np = saved_np
+        return out, list(calls)
+
+    def post(out, p):
+        (alphas, coefs), cl = out
+        cs = [('one-solve-per-grid-point', [], z3.BoolVal(len(cl) == 3)),
+              ('grid-sorted-decreasingly', [], z3.BoolVal([float(a) for a in alphas] == [0.5, 0.2, 0.1]))]
+        if len(cl) != 3:
+            return cs
+        for t, c in enumerate(cl):
+            f = [sum((X[i][j] * c['w'][j] for j in range(P)), z3.RealVal(0)) for i in range(N)]
+            cs.append((f'grid-point-{t}:start-is-consistent:Xw_init==X.w_init', [], z3.And(*[c['Xw'][i] == f[i] for i in range(N)])))
+            cs.append((f'grid-point-{t}:penalty.alpha==alphas[{t}]', [], z3.BoolVal(c['alpha'] is not None and float(c['alpha']) == float(alphas[t]))))
+            cs.append((f'coefs[{t}]==solution-for-alphas[{t}](after-all-solves)', [],
+                       z3.And(*[L(coefs[t, j]) == z3.Real(f'sol{t}_{j}') for j in range(P)])))
+        return cs
+    check_contract(T, 'SqrtLasso.path', run, zpre([]), post, strength='B', safety=False)
+
+
+add_task(['C05', 'C11'], 'experimental:SqrtLasso.path', sqrt_lasso_path_task, strength='B')
